@@ -1,4 +1,5 @@
 import OhkamiModel.M.ResponseProofs
+import OhkamiModel.M.ResponseWire
 /-! # C03 — property theorems (statements only; the proofs are in OhkamiModel/M/ResponseProofs.lean) -/
 namespace C03
 open Ohkami Ohkami.Response
@@ -19,5 +20,28 @@ theorem send_no_overrun (c : Cfg) (ok : c.OK) (status : Nat) (date : Bytes) (ops
 theorem size_exact (nameLen : Nat → Nat) (n : Nat) (ops : List HOp) (hk : ∀ op ∈ ops, op.keyOk n) :
     (ops.foldl (Headers.apply nameLen) (Headers.empty n)).Inv nameLen n :=
   size_exact' nameLen n ops hk
+
+/-- **Latest value, nothing removed or stale.**  After any operation the standard-header store reads as the abstract map
+(header -> value) updated by that operation: insert sets, remove erases, append joins with ", " — for every history. -/
+theorem latest_value (nameLen : Nat → Nat) (n : Nat) (h : Headers) (hi : h.Inv nameLen n) (op : HOp) (hk : op.keyOk n) (k' : Nat) :
+    (h.apply nameLen op).std.get k' = absStd h.std.get op k' :=
+  std_refines nameLen n h hi op hk k'
+
+/-- **Every live header exactly once**: a line is written for (k, v) iff the store reads v under k, and no header name gets two lines. -/
+theorem live_exact (m : IndexMap) (n : Nat) (hw : m.WF n) :
+    (∀ k v, (k, v) ∈ m.live ↔ m.get k = some v) ∧ (m.live.map (·.1)).Nodup :=
+  ⟨fun k v => live_iff_get m n hw k v, live_keys_nodup m⟩
+
+/-- **Framing.**  Whatever sequence of public operations built the response (Content-Length itself left to the body setters): a 204 goes
+out with no body and no Content-Length; any other response with a body declares exactly the number of body bytes; one without a body
+declares `Content-Length: 0` unless its status (1xx, 304) forbids a body anyway. -/
+theorem framing (c : Cfg) (ok : c.OK) (status : Nat) (date : Bytes) (ops : List ROp)
+    (hk : ∀ op ∈ ops, op.keyOk c.n) (hl : ∀ op ∈ ops, op.leavesCL c) :
+    let r := build c status date ops
+    r.status = status ∧
+    (status = 204 → r.body = none ∧ r.headers.std.get c.kCL = none) ∧
+    (status ≠ 204 → ∀ b, r.body = some b → r.headers.std.get c.kCL = some (dec b.length)) ∧
+    (status ≠ 204 → r.body = none → mayHaveNoLength status = false → r.headers.std.get c.kCL = some zero) :=
+  Response.framing c ok status date ops hk hl
 
 end C03
